@@ -487,6 +487,16 @@ func (p SpendPolicy) MarshalJSON() ([]byte, error) {
 
 // UnmarshalJSON implements json.Unmarshaler.
 func (p *SpendPolicy) UnmarshalJSON(b []byte) (err error) {
+	return p.unmarshalJSON(b, 0)
+}
+
+// unmarshalJSON bounds the nesting like the binary decoder: every level
+// re-parses (and copies) everything nested below it, so the cost of an
+// unbounded nest grows with depth times size.
+func (p *SpendPolicy) unmarshalJSON(b []byte, depth int) (err error) {
+	if depth > maxPolicyDepth {
+		return fmt.Errorf("policy exceeds maximum nesting depth of %d", maxPolicyDepth)
+	}
 	var v struct {
 		Type   string          `json:"type"`
 		Policy json.RawMessage `json:"policy"`
@@ -512,8 +522,22 @@ func (p *SpendPolicy) UnmarshalJSON(b []byte) (err error) {
 		err = json.Unmarshal(v.Policy, (*Hash256)(&pt))
 		p.Type = pt
 	case "thresh":
-		var pt PolicyTypeThreshold
-		err = json.Unmarshal(v.Policy, &pt)
+		var t struct {
+			N  uint8             `json:"n"`
+			Of []json.RawMessage `json:"of"`
+		}
+		if err = json.Unmarshal(v.Policy, &t); err != nil {
+			return
+		}
+		pt := PolicyTypeThreshold{N: t.N}
+		if t.Of != nil {
+			pt.Of = make([]SpendPolicy, len(t.Of))
+		}
+		for i := range t.Of {
+			if err = pt.Of[i].unmarshalJSON(t.Of[i], depth+1); err != nil {
+				return
+			}
+		}
 		p.Type = pt
 	case "opaque":
 		var pt PolicyTypeOpaque
